@@ -298,7 +298,10 @@ def _single_fault_context(run, r):
         if any(a["fault"] for a in att):
             faulted += 1
     ign = any(k == "NET.write_ignored" for _, _, k, _ in log.events)
-    return faulted == 1 and not ign
+    # (a stalled link: several messages can be under way when it fails; each of them is
+    # re-sent, which of them first is not stated)
+    stalled = any(k == "NET.stall" for _, _, k, _ in log.events)
+    return faulted == 1 and not ign and not stalled
 
 
 # ------------------------------------------------------------ API level
